@@ -69,3 +69,38 @@ def charset_strip(ctx, rule, mod):
                              '`%s` removes every leading/trailing character out of the set %r, not the suffix %r: names or numbers ending in one of these characters are damaged' % (
                                  unparse(c), sorted(set(lit)), lit), mod.loc(c))
     return n
+
+
+def stale_buffer(ctx, rule, mod, qualnames):
+    """a list that is filled and consumed inside a loop but never read after it is a per-iteration buffer: it has to be initialised
+    inside the loop body.  Initialised once in front of the loop it still holds the entries of the previous iterations (replica 2
+    sees the samples of replica 1 at the front of the buffer)."""
+    n = 0
+    for q in qualnames:
+        if not mod.has_func(q):
+            continue
+        f = mod.func(q)
+        for loop in [x for x in walk(f) if isinstance(x, ast.For) and mod.enclosing_func(x) is f]:
+            inside = {id(x) for x in ast.walk(loop)}
+            appended = {}
+            for c in ast.walk(loop):
+                if isinstance(c, ast.Call) and isinstance(c.func, ast.Attribute) and c.func.attr in ('append', 'extend') and isinstance(c.func.value, ast.Name):
+                    appended.setdefault(c.func.value.id, c)
+            for name, site in appended.items():
+                occ = [x for x in walk(f) if isinstance(x, ast.Name) and x.id == name]
+                inits = [s_ for s_ in walk(f) if isinstance(s_, ast.Assign) and len(s_.targets) == 1 and isinstance(s_.targets[0], ast.Name) and s_.targets[0].id == name
+                         and isinstance(s_.value, ast.List) and not s_.value.elts]
+                if not inits:
+                    continue
+                init_inside = [s_ for s_ in inits if id(s_) in inside]
+                read_inside = [x for x in occ if id(x) in inside and isinstance(x.ctx, ast.Load) and not (isinstance(mod.parents.get(x), ast.Attribute) and mod.parents[x].attr in ('append', 'extend'))]
+                read_after = [x for x in occ if id(x) not in inside and isinstance(x.ctx, ast.Load) and x.lineno > loop.end_lineno]
+                outer = [lp for lp in walk(f) if isinstance(lp, (ast.For, ast.While)) and lp is not loop and id(loop) in {id(y) for y in ast.walk(lp)}]
+                if not read_inside or read_after or outer:
+                    continue
+                n += 1
+                ctx.check(rule, '%s:%s#loop-buffer[%s]' % (mod.relpath.replace('pyerrors/', ''), q, name), bool(init_inside),
+                          'the buffer `%s` is initialised inside the loop at line %d' % (name, loop.lineno),
+                          'the buffer `%s` is filled and consumed inside the loop at line %d but initialised only once in front of it: from the second iteration on it still contains the entries of the '
+                          'previous iterations' % (name, loop.lineno), mod.loc(site))
+    return n
